@@ -9,7 +9,7 @@ From updog Require Import Conc LockPolicy SingleSection.
 From Gen Require Import LockFacts.
 Local Open Scope list_scope.
 
-Definition funs := restrict funs_C17 gen_funs.
+Definition funs := reachable_funs policy_C17 gen_funs entries_C17.
 Definition skeletons_C17 : list stmt := map gen_entry entries_C17.
 
 Lemma C17_locks : well_locked_all policy_C17 funs skeletons_C17 = true.
